@@ -666,6 +666,12 @@ func normObs(v sx.V) string {
 // CompareWithModel replays node n's recorded event history in the Coq handler model and returns the first
 // event index at which the observation differs (-1 = all equal), with both observations.
 func (c *ctx) CompareWithModel(s *Sim, n *Node, sh shapeInfo, fixedStop bool) (int, string, string, error) {
+	return c.CompareWithModelNorm(s, n, sh, fixedStop, nil)
+}
+
+// CompareWithModelNorm is CompareWithModel with a caller-supplied normalisation applied to both observations of event i
+// before they are compared (for behaviour the model has no event for, e.g. who is named after a recovered panic).
+func (c *ctx) CompareWithModelNorm(s *Sim, n *Node, sh shapeInfo, fixedStop bool, norm func(i int, model, real sx.V) (sx.V, sx.V)) (int, string, string, error) {
 	if n.MH == nil {
 		return -1, "", "", nil
 	}
@@ -698,7 +704,11 @@ func (c *ctx) CompareWithModel(s *Sim, n *Node, sh shapeInfo, fixedStop bool) (i
 		return 0, fmt.Sprintf("%d observations", len(rep.L)), fmt.Sprintf("%d observations", len(n.Obs)), nil
 	}
 	for i := range n.Obs {
-		a, b := normObs(rep.L[i]), normObs(obsSx(n.Obs[i]))
+		mv, rv := rep.L[i], obsSx(n.Obs[i])
+		if norm != nil {
+			mv, rv = norm(i, mv, rv)
+		}
+		a, b := normObs(mv), normObs(rv)
 		if a != b {
 			return i, a, b, nil
 		}
